@@ -21,7 +21,7 @@ def validate_decoded(obj):
   else:
     raise gfapy.TypeError(
       "the class {} is incompatible with the datatype\n"
-      .format(obj.__class__.__name) +
+      .format(obj.__class__.__name__) +
       "(accepted classes: gfapy.CIGAR, gfapy.Placeholder)")
 
 def unsafe_encode(obj):
